@@ -170,6 +170,14 @@ class Program:
             self._callers = d
         return self._callers
 
+    def callers_of(self, fid):
+        """ids of bodies with a call whose resolved/declared callee is fid (text-prefiltered)"""
+        out = []
+        for b in self.bodies.containing(json.dumps(fid)):
+            if any(cs.callee == fid or cs.declared == fid for cs in b.calls()):
+                out.append(b.id)
+        return out
+
     def reach(self, roots, depth=None, stop=None):
         """ids of in-crate bodies reachable through calls / nested bodies from `roots`."""
         seen = {}
@@ -606,6 +614,29 @@ class Body:
             x = idom[x]
         return out
 
+    def backward_locals(self, start_locals, limit=400):
+        """locals in the backward data slice of the given locals (through assignments and call
+        arguments, any number of definitions); an over-approximation used to name buffers"""
+        seen = set()
+        q = list(start_locals)
+        defs = self.defs()
+        pdefs = self.partial_defs()
+        while q and len(seen) < limit:
+            l = q.pop()
+            if l in seen:
+                continue
+            seen.add(l)
+            for d in defs.get(l, []) + pdefs.get(l, []):
+                if d[0] == 's':
+                    for o in _rvalue_operands(d[3]['r']):
+                        if 'p' in o:
+                            q.append(o['p'][0])
+                else:
+                    for o in d[3].get('args', []):
+                        if 'p' in o:
+                            q.append(o['p'][0])
+        return seen
+
     def return_blocks(self):
         return [bi for bi, t in self.terms() if t['k'] == 'ret']
 
@@ -636,6 +667,21 @@ class Body:
     def line_of_block(self, bb):
         t = self.blocks[bb]['t']
         return t.get('ln')
+
+
+def _rvalue_operands(r):
+    k = r['k']
+    if k in ('use', 'cast', 'repeat'):
+        return [r['o']]
+    if k in ('ref', 'disc', 'rawptr'):
+        return [{'p': r['p']}]
+    if k == 'bin':
+        return [r['a'], r['b']]
+    if k == 'un':
+        return [r['a']]
+    if k == 'agg':
+        return r['ops']
+    return []
 
 
 # ------------------------------------------------------------------------------------------------
@@ -686,9 +732,13 @@ class Expr:
                 return Expr('param', l, body.local_name(l))
         if kind == 'c':
             cs = CallSite(body, bi, s)
-            return Expr('call', cs.callee, [Expr.of_operand(body, a, depth - 1) for a in cs.args], cs)
-        r = s['r']
-        return Expr.of_rvalue(body, r, depth - 1)
+            e = Expr('call', cs.callee, [Expr.of_operand(body, a, depth - 1) for a in cs.args], cs)
+        else:
+            e = Expr.of_rvalue(body, s['r'], depth - 1)
+        if body.local_name(l) is not None:
+            # keep the identity of user variables: let(l, name, value); renders as its value
+            return Expr('let', l, body.local_name(l), e)
+        return e
 
     @staticmethod
     def of_rvalue(body, r, depth):
@@ -718,6 +768,12 @@ class Expr:
     def of_place(body, pl, depth):
         e = Expr.of_local(body, pl[0], depth)
         for p in pl[1:]:
+            inner = e.c if e.k == 'let' else e
+            if p.startswith('.') and inner is not e and (
+                    (inner.k == 'downcast') or (inner.k == 'bin' and inner.a.endswith('WithOverflow'))):
+                e = inner
+            if p.startswith('@') and inner is not e and inner.k == 'call':
+                e = inner
             if p == '*':
                 if e.k == 'ref':
                     e = e.a
@@ -749,6 +805,8 @@ class Expr:
     #    (try(x) = `x?`, await(x) = `x.await`)
     def show(self):
         k = self.k
+        if k == 'let':
+            return self.c.show()
         if k == 'param':
             return self.b or ('arg%d' % self.a)
         if k == 'local':
@@ -809,7 +867,9 @@ class Expr:
         yield self
         k = self.k
         subs = []
-        if k in ('field', 'deref', 'ref', 'index', 'downcast', 'disc', 'try', 'await'):
+        if k == 'let':
+            subs = [self.c]
+        elif k in ('field', 'deref', 'ref', 'index', 'downcast', 'disc', 'try', 'await'):
             subs = [self.a]
         elif k == 'call':
             subs = self.b
@@ -827,7 +887,9 @@ class Expr:
         """peel refs / derefs / copies-through-clone"""
         e = self
         while True:
-            if e.k in ('ref', 'deref'):
+            if e.k == 'let':
+                e = e.c
+            elif e.k in ('ref', 'deref'):
                 e = e.a
             elif e.k == 'call' and TRANSPARENT.match(e.a) and e.b:
                 e = e.b[0]
@@ -864,6 +926,11 @@ class Expr:
 def _awaitee(body, pin_expr, depth):
     """the future expression behind Pin::new_unchecked(&mut *(&mut awaitee))"""
     for y in pin_expr.walk():
+        if y.k == 'let':
+            aw = y.c
+            while aw.k == 'call' and (aw.a.endswith('IntoFuture>::into_future') or aw.a.endswith('IntoFuture::into_future')):
+                aw = aw.b[0]
+            return aw
         if y.k == 'local':
             ds = body.defs().get(y.a, [])
             if len(ds) == 1:
@@ -898,6 +965,11 @@ TRANSPARENT = re.compile(
     r'(core|std)::pin::Pin::<.*>::new_unchecked|(core|std)::pin::Pin::<.*>::new|'
     r'<.* as (core|std)::future::IntoFuture>::into_future|(core|std)::future::IntoFuture::into_future'
     r')$')
+
+
+# calls that keep the Ok/Err (Some/None) status of their first argument
+RESULT_PASS = re.compile(r'(Result::<.*>::(map_err|map|inspect_err|inspect)|Option::<.*>::(ok_or|ok_or_else|map)|'
+                         r'anyhow::Context<.*>>::(context|with_context)|Context>::(context|with_context))$')
 
 
 # ------------------------------------------------------------------------------------------------
@@ -952,9 +1024,14 @@ def edge_cond(body, edge):
 
 def _cond_from(body, e, val, vals, edge):
     neg = False
-    while e.k == 'un' and e.a == 'Not':
-        e = e.b
-        neg = not neg
+    while True:
+        if e.k == 'let':
+            e = e.c
+        elif e.k == 'un' and e.a == 'Not':
+            e = e.b
+            neg = not neg
+        else:
+            break
     dty = None
     if e.k == 'disc':
         if val == 'otherwise':
@@ -1062,7 +1139,8 @@ def try_edges(body, cs):
                         else:
                             break
                     return None
-            if 'p' in (c2.args[0] if c2.args else {}) and c2.args[0]['p'][0] in aliases and TRANSPARENT.match(c2.callee):
+            if 'p' in (c2.args[0] if c2.args else {}) and c2.args[0]['p'][0] in aliases and (
+                    TRANSPARENT.match(c2.callee) or RESULT_PASS.search(c2.callee)):
                 aliases.add(c2.dest[0])
             cur = t.get('t')
             if cur is None:
